@@ -7,6 +7,7 @@ and the input length `inpLen ≥ 1`; every statement is for every history of cal
 `puncturedAfter` from C10: the key held after the history, and the successfully punctured inputs).
 -/
 import StarModel.Props.C10
+import StarModel.Props.C14
 
 namespace StarModel.Props.C11
 open StarModel StarModel.Ggm StarModel.Props.C10
@@ -29,7 +30,7 @@ theorem C11_no_ancestor_retained (g : Bool → Seed → Seed) (inpLen : Nat) (hp
     exact h1 ps hps (by rw [he]; exact List.take_prefix _ _)
   · intro hm
     obtain ⟨ps, hps, he⟩ := List.mem_map.1 hm
-    exact h1 ps hps (by rw [he]; exact List.prefix_refl _)
+    exact h1 ps hps (by rw [he]; first | done | exact List.prefix_refl _)
 
 /-- every unpunctured full-length input lies below exactly one retained node: existence,
 uniqueness of the member, and exactly one storage position; a punctured one below none -/
@@ -139,5 +140,34 @@ example : (keyAfter gN 1 2 3 [.puncture [0], .puncture [128]]).prefixes.map Prod
     [[true], [false, false, false, false, false, false, true], [false, false, false, false, false, true],
      [false, false, false, false, true], [false, false, false, true], [false, false, true], [false, true]] := by
   decide
+
+/-! ### the key HOLDER: `Server` (and the key state it exports) -/
+
+open StarModel.Ppoprf in
+/-- (U) **The server's key state after any puncture history.** For a server whose GGM tree started
+from `(s0, s1)` and EVERY history `mds` of `Server::puncture` calls - registered tags or not, repeats
+included - the puncturable key the server holds (the `ggm_key` that `get_private_key` exports
+verbatim, next to the OPRF key and the public key) contains no node on the path to any tag of the
+history, and every other tag is covered by exactly one retained node. -/
+theorem C11_server_key_state (F : Perm) (srv0 : Server) (s0 s1 : Bytes) (hg : srv0.ggm = initKey s0 s1)
+    (mds : List UInt8) (md : UInt8) :
+    (md ∈ mds → ∀ ps ∈ (C14.afterPunctures F srv0 mds).ggm.prefixes, ¬ ps.1 <+: inputBits [md]) ∧
+    (md ∉ mds → ((C14.afterPunctures F srv0 mds).ggm.prefixes.filter
+        fun ps => ps.1.isPrefixOf (inputBits [md])).length = 1) := by
+  obtain ⟨_, _, _, _, h5⟩ := C14.C14_frame F srv0 mds
+  have hlen : Params.ggmInpLen = 1 := rfl
+  rw [h5, hg, hlen]
+  obtain ⟨_, _, _, hP, _, _⟩ := C10.C10_history (srv0.g F) 1 (le_refl 1) s0 s1
+    (mds.map fun m => Ggm.Op.puncture [m])
+  have hin : inputBits [md] ∈ puncturedAfter (srv0.g F) 1 s0 s1 (mds.map fun m => Ggm.Op.puncture [m]) ↔
+      md ∈ mds := by
+    rw [hP, C14.mem_specRun_punctures]; simp
+  constructor
+  · intro hm
+    exact (C11_no_ancestor_retained (srv0.g F) 1 (le_refl 1) s0 s1 _ _ (hin.mpr hm)).1
+  · intro hm
+    have hl : (inputBits [md]).length = 8 * 1 := by simp [inputBits_length]
+    exact ((C11_cover (srv0.g F) 1 (le_refl 1) s0 s1 (mds.map fun m => Ggm.Op.puncture [m])
+      (inputBits [md]) hl).1 (fun h => hm (hin.mp h))).2
 
 end StarModel.Props.C11
